@@ -234,12 +234,24 @@ fn parent_log(sys: &Sys, pc: &str, v0: u64, v1: u64) -> Vec<bool> {
 
 enum Admit { Processed, Refused(String) }
 
+/// The checks of the local RFC 6492 shortcut (manager.rs, send_rfc6492_and_validate_response, since 1a6ebc01): the
+/// parent must know the child named as sender and must have registered the calling CA's ID key for it; otherwise
+/// the request is refused before rfc6492_process_request, i.e. before anything is recorded at the parent.
 fn admission(sys: &Sys, l: &Link) -> Admit {
-    if l.pc == "ta" { return Admit::Processed }
-    match sys.ca(&l.pc) {
-        Err(e) => Admit::Refused(label(&e)),
-        Ok(pca) => match pca.get_child(&child_handle(&l.ch)) { Err(e) => Admit::Refused(label(&e)), Ok(_) => Admit::Processed },
-    }
+    let Ok(caller) = sys.ca(&l.ca) else { return Admit::Processed };
+    let my_key = caller.id_cert().public_key.key_identifier();
+    let registered = if l.pc == "ta" {
+        match sys.krill.ca_manager().get_trust_anchor_proxy() {
+            Err(e) => return Admit::Refused(label(&e)),
+            Ok(proxy) => match proxy.get_child(&child_handle(&l.ch)) { Err(e) => return Admit::Refused(label(&e)), Ok(c) => c.id.public_key.key_identifier() },
+        }
+    } else {
+        match sys.ca(&l.pc) {
+            Err(e) => return Admit::Refused(label(&e)),
+            Ok(pca) => match pca.get_child(&child_handle(&l.ch)) { Err(e) => return Admit::Refused(label(&e)), Ok(c) => c.id_cert.public_key.key_identifier() },
+        }
+    };
+    if registered != my_key { Admit::Refused(label(&Error::Custom(String::new()))) } else { Admit::Processed }
 }
 
 /// What the parent answers to a list query of this child, asked directly (no exchange, nothing recorded).
@@ -295,6 +307,8 @@ struct Hist {
     pub_removed: BTreeSet<String>,
     roas: BTreeMap<String, Vec<String>>,
     slash: bool,
+    /// when a CA is created again under its old handle: tell the parent / the publication server the new ID key?
+    fix_ids: bool,
 }
 
 struct StepOut { ops: Vec<String>, desc: Value, res: Option<Result<(), Error>>, class: Value, kind: String }
@@ -314,21 +328,32 @@ impl Hist {
         // a child that is still registered keeps its registration: ask for the parent response again
         let response = match sys.krill.ca_manager().ca_add_child(&ca_handle(&l.pc), req, &sys.actor, &sys.krill) {
             Ok(r) => r,
-            Err(_) => sys.krill.ca_manager().ca_parent_response(&ca_handle(&l.pc), child_handle(&l.ch), sys.krill.service_uri())?,
+            Err(_) => {
+                // (a CA created again under its old handle has a new ID key: unless the parent is told, its requests are refused)
+                if self.fix_ids {
+                    let id = ca.child_request().validate().map_err(Error::rfc8183)?;
+                    let _ = sys.krill.ca_manager().ca_child_update(&ca_handle(&l.pc), child_handle(&l.ch), krill::api::admin::UpdateChildRequest::id_cert(id), &sys.actor, &sys.krill);
+                }
+                sys.krill.ca_manager().ca_parent_response(&ca_handle(&l.pc), child_handle(&l.ch), sys.krill.service_uri())?
+            }
         };
         let preq = ParentCaReq { handle: parent_handle(&l.p), response };
         sys.krill.ca_manager().ca_parent_add_or_update(ca_handle(&l.ca), preq, &sys.actor, &sys.krill)
     }
 
-    /// init_ca + publisher (kept if it is still there) + repository contact.
+    /// init_ca + publisher (if it is still there it is kept - and then refuses the new CA - or replaced, see `fix_ids`) + repository contact.
     fn create_ca(&self, h: &str) -> Result<(), Error> {
         let sys = self.sys();
         let hd = ca_handle(h);
         sys.krill.ca_manager().init_ca(hd.clone(), &sys.krill)?;
         let ca = sys.krill.ca_manager().get_ca(&hd)?;
         let pub_req = PublisherRequest::new(ca.id_cert().base64.clone(), hd.convert(), None);
-        let created = sys.krill.repo_manager().create_publisher(pub_req, &sys.actor).is_ok();
-        let _ = created;
+        let created = sys.krill.repo_manager().create_publisher(pub_req.clone(), &sys.actor).is_ok();
+        if !created && self.fix_ids {
+            // the publisher of the deleted CA is still registered with the old ID key: replace it
+            let _ = sys.krill.repo_manager().remove_publisher(hd.convert(), &sys.actor, &sys.krill);
+            let _ = sys.krill.repo_manager().create_publisher(pub_req, &sys.actor);
+        }
         let resp = sys.krill.repo_manager().repository_response(&hd.convert(), &sys.krill)?;
         let contact = RepositoryContact::try_from_response(resp).map_err(Error::rfc8183)?;
         sys.krill.ca_manager().update_repo(hd, contact, false, &sys.actor, &sys.slow)
@@ -410,13 +435,20 @@ impl Hist {
     }
 
     fn repo_op(&mut self, ca: &str, wanted: &Value) -> String {
-        // A list query of a publisher the (local) server does not know is answered with an empty list
-        // (pubd/manager.rs:176-182, content.rs objects_for_publisher); only the delta query is refused.
-        let (lr, dr) = match server_files(self.sys(), ca) {
-            Ok(files) => (format!("(ROk {})", files_term(&mut self.it, &files)), "XOk".to_string()),
-            Err(e) => ("(ROk [])".to_string(), format!("(XFail {})", self.it.label(&e))),
+        // The local RFC 8181 shortcut (manager.rs, send_rfc8181_and_validate_response, since 346cb17c) refuses every
+        // query - the list query included - unless the server knows the publisher and has registered the calling
+        // CA's ID key for it. (Before that commit a list query of an unknown publisher was answered with an empty list.)
+        let my_key = if ca == "ta" { self.sys().krill.ca_manager().get_trust_anchor_proxy().ok().map(|p| p.id().public_key.key_identifier()) }
+                     else { self.sys().ca(ca).ok().map(|c| c.id_cert().public_key.key_identifier()) };
+        let lr = match self.sys().krill.repo_manager().get_publisher_id_cert(&publisher_handle(ca)) {
+            Err(e) => format!("(RErr {})", self.it.label(&label(&e))),
+            Ok(cert) if Some(cert.public_key.key_identifier()) != my_key => format!("(RErr {})", self.it.label(&label(&Error::Custom(String::new())))),
+            Ok(_) => match server_files(self.sys(), ca) {
+                Ok(files) => format!("(ROk {})", files_term(&mut self.it, &files)),
+                Err(e) => format!("(RErr {})", self.it.label(&e)),
+            },
         };
-        format!("ORepoSync {} {} {lr} {dr}", qs(ca), files_term(&mut self.it, wanted))
+        format!("ORepoSync {} {} {lr} XOk", qs(ca), files_term(&mut self.it, wanted))
     }
 
     fn step_sync_repo(&mut self, ca: &str) -> StepOut {
@@ -555,7 +587,7 @@ fn run_history(args: &Args, id: u64, seed: u64, n_ops: u64, slash: bool, readd: 
     links.insert(c.clone(), Link { ca: c.clone(), p: a.clone(), pc: a.clone(), ch: cch });
     let mut h = Hist { id, sys: Some(open_sys(opts.clone())), opts, cas: vec!["ta".into(), a.clone(), b.clone(), c.clone()], links,
         ent: BTreeMap::from([(a.clone(), 0xff), (b.clone(), 0x0f), (c.clone(), 0x30)]), it: Intern::default(),
-        shadow_stale: BTreeSet::new(), pub_removed: BTreeSet::new(), roas: BTreeMap::new(), slash };
+        shadow_stale: BTreeSet::new(), pub_removed: BTreeSet::new(), roas: BTreeMap::new(), slash, fix_ids: true };
     h.sys().bootstrap().expect("bootstrap");
 
     // scripted set-up, every step observed like any other
@@ -583,14 +615,11 @@ fn run_history(args: &Args, id: u64, seed: u64, n_ops: u64, slash: bool, readd: 
         let cas = h.cas.clone();
         let pre = observe(h.sys(), &cas);
         let mut lost_slash = false;
+        h.fix_ids = rng.chance(60);
         let so: StepOut = match kind.as_str() {
             "create" => { let r = h.create_ca(&who); if server_files(h.sys(), &who).is_ok() { h.pub_removed.remove(&who); } if r.is_ok() { h.shadow_stale.remove(&who); } let mut s = plain("create_ca", json!({"op": "create_ca", "ca": who, "ok": r.is_ok()})); s.ops.push(format!("OFreshCa {}", qs(&who))); if r.is_err() { s.ops.clear(); } s }
             "link" => { let l = h.links[&who].clone(); let m = h.ent[&who]; let r = h.add_link(&l, m); plain("add_parent", json!({"op": "add_parent", "link": format!("{l:?}"), "ok": r.is_ok()})) }
             "sync" => h.step_sync_parent(&who),
-            // Without --readd 1 the history avoids the known finding F19b: no repository exchange that can succeed
-            // after the server lost the publisher's content behind the CA's back.
-            "repo" if !readd && h.shadow_stale.contains(&who) && wanted_files(h.sys(), &who).as_array().map(|a| a.is_empty()).unwrap_or(true) =>
-                plain("skipped", json!({"op": "skipped_sync_repo", "ca": who})),
             "repo" => h.step_sync_repo(&who),
             "child_remove" => { let l = h.links[&who].clone(); let r = h.sys().child_remove(&l.pc, &l.ch);
                 let mut s = plain("child_remove", json!({"op": "child_remove", "parent_ca": l.pc, "child": l.ch, "ok": r.is_ok()})); s.ops.push(format!("ORemoveChild {} {}", qs(&l.pc), qs(&l.ch)));
@@ -663,6 +692,10 @@ fn run_history(args: &Args, id: u64, seed: u64, n_ops: u64, slash: bool, readd: 
             // a CA created again under the same handle whose very first exchange with the parent is refused
             "delete" if script.is_empty() && rng.chance(60) => {
                 for k in ["child_readd", "child_remove", "sync", "sync", "child_readd", "sync", "sync", "repo"] { script.push_back((k.into(), who.clone())); } }
+            // ... or that is still registered at the parent and at the publication server under the ID key of its
+            // predecessor (identity replaced): refused unless the harness passed the new key on (`fix_ids`)
+            "delete" if script.is_empty() => {
+                for k in ["child_readd", "sync", "sync", "repo"] { script.push_back((k.into(), who.clone())); } }
             // handles with '/': a removal right after a restart meets an entry that the restart lost
             "restart" if h.slash && script.is_empty() && rng.chance(40) => {
                 if rng.chance(50) { script.push_back(("child_remove".into(), c.clone())); } else { script.push_back(("parent_remove".into(), b.clone())); } }
